@@ -115,6 +115,9 @@ structure Host where
   file system lists them (without "." and "..") -/
   preEntries : List Nat := []
   dirEntries : List Nat := []
+  /-- state of the dirent caches of the directory descriptors: `false` = fresh (nothing read yet), `true` = the
+  complete listing has been read before and is cached (`countRead = len`, `eof`) -/
+  cacheFull : Bool := false
 deriving Repr
 
 /-- `nullTerminatedByteCount` -/
